@@ -1809,7 +1809,9 @@ def r11e(ctx):
     want = T("setitem", T("item", T("attr", c, "_registry"), T("attr", c, "_itmd_type")), T("attr", c, "__name__"), T("call", "t2_1", (), ()))
     paths = [o for o in outs if o.kind == "return" and any(not pol and a.op == "cmp" and a.args[0] == "in" and
                                                           a.args[1] == T("attr", c, "__name__") for a, pol in o.path)]
-    ctx.check(rule, isub, bool(paths) and all(want in o.effects for o in paths), "classes registered as an instance under their class name",
+    want2 = T("setitem", T("item", T("attr", c, "_registry"), "t_amplitude"), T("attr", c, "__name__"), T("call", "t2_1", (), ()))
+    ctx.check(rule, isub, bool(paths) and all(want in o.effects or want2 in o.effects for o in paths),
+              "classes registered as an instance under their class name",
               f"__init_subclass__ of a class that is not registered yet: effects {[o.effects for o in paths]}, expected {show(want)}",
               key="register")
     from . import c19
